@@ -83,4 +83,4 @@ def body(case):
 
 
 def tests(tier):
-    return [TestSpec("rule-test", lambda f: G.from_gen(gen_case, 1280), body, {"quick": 6000, "thorough": 500000})]
+    return [TestSpec("rule-test", gen_case, body, {"quick": 6000, "thorough": 500000}, tape=1280)]
